@@ -33,6 +33,8 @@ if REPO not in sys.path:
     sys.path.insert(0, REPO)
 os.environ.setdefault('PYTHONDONTWRITEBYTECODE', '1')
 sys.dont_write_bytecode = True
+import logging  # noqa: E402
+logging.disable(logging.CRITICAL)   # cardutil logs warnings on truncated input; not an observation
 
 # ---------------------------------------------------------------------------------------------
 # shared encodings with the driver
@@ -269,7 +271,7 @@ def _worker(args):
         for i, r in zip(idx, resp):
             model.setdefault(i, []).append(r)
     for i, (case, r) in enumerate(zip(chunk, impl)):
-        res['n'] += 1
+        res['n'] += int(r.get('weight', 1))
         key = hashlib.blake2b(json.dumps(case, sort_keys=True, default=str).encode(), digest_size=8).digest()
         nt = bool(r.get('nontrivial', True))
         res['hashes'].append((int.from_bytes(key, 'big') << 1) | int(nt))
